@@ -593,12 +593,19 @@ fn loadably_selected_field_ast_node<TCompilationProfile: CompilationProfile>(
             } else {
                 "ComponentReaderArtifact"
             };
+        // like every other import between artifacts, the lazily loaded entrypoint is imported with
+        // its file extension when include_file_extensions_in_import_statements is set
+        let config = db.get_isograph_config();
+        let file_extension = config
+            .options
+            .include_file_extensions_in_import_statements
+            .ts();
         format!(
             "{{\n\
             {indent_3}kind: \"EntrypointLoader\",\n\
             {indent_3}typeAndField: \"{type_and_field}\",\n\
             {indent_3}readerArtifactKind: \"{reader_artifact_kind}\",\n\
-            {indent_3}loader: () => import(\"../../{field_parent_type}/{name}/entrypoint\").then(module => module.default),\n\
+            {indent_3}loader: () => import(\"../../{field_parent_type}/{name}/entrypoint{file_extension}\").then(module => module.default),\n\
             {indent_2}}}"
         )
     };
